@@ -213,3 +213,51 @@ Lemma name_scanners :
   alternatives g_generic__name =
   [PWord word_chars word_chars 1 0 false false true; PQuoted [cDQ] [cDQ] None false true false].
 Proof. reflexivity. Qed.
+
+(* ---- the DBML renderer's quoting is read back by the scanners (lexical core of C02) ---- *)
+From PyDBML Require Import Tools RenderSQL.
+
+Fixpoint no_triple (t : pystr) : bool :=
+  match t with
+  | a :: ((b :: c :: _) as r) => negb (N.eqb a cSQ && N.eqb b cSQ && N.eqb c cSQ) && no_triple r
+  | _ => true
+  end.
+
+Lemma prepare_is_escape (t : pystr) : mem cBSL t = false -> no_triple t = true ->
+  prepare_text_for_dbml t = escape cSQ t.
+Proof.
+  induction t as [|a r IH]; intros Hb Ht; [reflexivity|].
+  cbn [mem] in Hb. apply orb_false_iff in Hb as [Ha Hb]. rewrite N.eqb_sym in Ha.
+  assert (Htr : no_triple r = true).
+  { destruct r as [|b [|c r']]; try reflexivity. cbn [no_triple] in Ht. apply andb_true_iff in Ht. tauto. }
+  cbn [prepare_text_for_dbml escape]. rewrite Ha.
+  destruct (N.eqb a cSQ) eqn:E.
+  - destruct r as [|b [|c r']].
+    + reflexivity.
+    + rewrite (IH Hb Htr). reflexivity.
+    + cbn [no_triple] in Ht. apply andb_true_iff in Ht as [Hn _]. rewrite E in Hn. cbn [andb] in Hn.
+      apply negb_true_iff in Hn. rewrite Hn. rewrite (IH Hb Htr). reflexivity.
+  - rewrite (IH Hb Htr). reflexivity.
+Qed.
+
+Lemma no_nl_mem (t : pystr) : no_nl t -> mem cLF t = false.
+Proof.
+  induction t as [|a r IH]; intros Hn; [reflexivity|]. cbn [mem].
+  destruct (Hn a (or_introl eq_refl)) as [H _]. rewrite (neqb cLF a) by congruence. cbn [orb].
+  apply IH. intros x Hx. apply Hn. right. exact Hx.
+Qed.
+
+Theorem single_line_text_roundtrip (t rest : pystr) :
+  no_nl t -> mem cBSL t = false -> no_triple t = true ->
+  quoted_scan [cSQ] [cSQ] (Some cBSL) false true true (quote_string t ++ rest) = Some (t, rest).
+Proof.
+  intros Hn Hb Ht. unfold quote_string.
+  pose proof (no_nl_mem t Hn) as Hl.
+  rewrite Hl. rewrite prepare_is_escape by assumption. cbn [app]. rewrite <- app_assoc. cbn [app].
+  apply quoted_scan_single; [left; reflexivity|exact Hn].
+Qed.
+
+(* names are always written between double quotes (q2) and read back unchanged *)
+Theorem quoted_name_roundtrip (n rest : pystr) : ident_ok n ->
+  quoted_scan [cDQ] [cDQ] None false true false (q2 n ++ rest) = Some (n, rest).
+Proof. intros H. unfold q2. cbn [app]. rewrite <- app_assoc. cbn [app]. apply quoted_identifier. exact H. Qed.
